@@ -65,6 +65,10 @@ var zzShapes = []zzShape{
 	9: {bk: []zzBk{{0, aEq, aB, 0, 0}, {1, aB, aBC, 0, 1}, {1, aI, aY, 1, 2}, {2, aY, aYZ, 1, -3}}, pr: []zzPr{{0, 1, 0, 0}}},
 	// an account whose later segment contains its own type name (for --remap)
 	10: {bk: []zzBk{{0, aEq, aPool, 0, 0}, {1, aPool, aL, 0, 1}, {2, aPool, aX, 0, -3}}},
+	// a price that is declared only after the commodity is first used (missing price on day 0)
+	11: {bk: []zzBk{{0, aI, aX, 1, 0}, {3, aEq, aA, 0, 1}}, pr: []zzPr{{2, 1, 0, 0}}},
+	// liability in a foreign commodity held across two price changes
+	12: {bk: []zzBk{{0, aL, aA, 1, 0}, {2, aA, aX, 0, 1}}, pr: []zzPr{{0, 1, 0, 0}, {1, 1, 0, 1}, {3, 1, 0, 2}}},
 }
 
 type zzInputs struct {
